@@ -6,6 +6,7 @@ import (
 	"os/exec"
 	"strconv"
 	"strings"
+	"time"
 
 	"github.com/ChrisTrenkamp/xsel"
 
@@ -102,12 +103,19 @@ func c13RunHistory(idx ...int) string {
 	for _, i := range idx {
 		a = append(a, strconv.Itoa(i))
 	}
-	o, err := exec.Command(os.Args[0], append([]string{"c13-build-history"}, a...)...).CombinedOutput()
-	s := strings.TrimSpace(string(o))
-	if err != nil || !strings.HasPrefix(s, "OUT ") {
-		return "PROCESS FAILED: " + s
+	s := ""
+	for attempt := 0; attempt < 4; attempt++ {
+		o, err := exec.Command(os.Args[0], append([]string{"c13-build-history"}, a...)...).CombinedOutput()
+		s = strings.TrimSpace(string(o))
+		if err == nil && strings.HasPrefix(s, "OUT ") {
+			return s
+		}
+		if strings.Contains(s, "OUT ") || strings.Contains(s, "goroutine ") {
+			break // the child ran and died: that is a result, not a spawn problem
+		}
+		time.Sleep(time.Duration(attempt+1) * 200 * time.Millisecond) // could not be started (resources): try again
 	}
-	return s
+	return "PROCESS FAILED: " + s
 }
 
 func c13BuildHistory(c *run.Check) {
@@ -127,7 +135,15 @@ func c13BuildHistory(c *run.Check) {
 		c.Transitions.Add(1)
 		c.Traces.Add(1)
 		c.Evaluations.Add(2)
-		if got := c13RunHistory(i, j); got != solo[j] {
+		got := c13RunHistory(i, j)
+		if (strings.HasPrefix(got, "PROCESS FAILED: ") && !strings.Contains(got, "goroutine ")) || (strings.HasPrefix(solo[j], "PROCESS FAILED: ") && !strings.Contains(solo[j], "goroutine ")) {
+			// the helper process could not be run at all (machine resources): not a
+			// result about the library; the history stays unexplored
+			c.Add("process_histories_not_run", 1)
+			c.Exhaustive = false
+			return
+		}
+		if got != solo[j] {
 			c.Violation(map[string]interface{}{"kind": "build-history", "first": calls[i], "then": calls[j], "got": got, "alone": solo[j]},
 				fmt.Sprintf("process history: BuildExpr+Exec of %s returns %s in a fresh process but %s after %s was built and executed in the same process", calls[j], solo[j], got, calls[i]))
 		}
